@@ -4,9 +4,9 @@ CONSTANTS
   Keys = {"k1"}
   Vals = {"a"}
   KvChecksNonce = TRUE
-  FailedCreateConsumesNonce = TRUE
+  FailedCreateConsumesNonce = FALSE
   EmptyTxInvalid = TRUE
-  AdminBoundsChecked = FALSE
+  AdminBoundsChecked = TRUE
   TxSet <- TxQ
   MaxTxs = 2
   MaxH = 2
